@@ -891,3 +891,10 @@ mod tests {
         assert_eq!(MapValueState::default().serialized_size(), 1);
     }
 }
+
+// Verification hook (inactive unless built with `--cfg agdb_verif` under Kani).
+#[cfg(all(agdb_verif, kani))]
+#[allow(unused, dead_code, clippy::all)]
+pub(crate) mod verif_h {
+    include!(concat!(env!("AGDB_VERIF_HARNESS"), "/map_h.rs"));
+}
